@@ -254,8 +254,15 @@ pub fn run_check_with_context(opts: &CheckOptions<'_>) -> crate::Result<i32> {
             );
             progress.inc();
 
-            // Check if this result is a failure for fail_fast
-            if fail_fast && result.is_failure() {
+            // Check if this result is a failure for fail_fast.
+            // A failure the baseline grandfathers does not fail the run, so it must not
+            // stop the search for one that does.
+            if fail_fast
+                && result.is_failure()
+                && !baseline.is_some_and(|b| {
+                    b.contains(&file_path.to_string_lossy().replace('\\', "/"))
+                })
+            {
                 failure_detected.store(true, Ordering::Relaxed);
             }
 
